@@ -5,7 +5,7 @@ from props import common, c07
 
 LEVEL = 'proof'
 MODULES = ['TlsModel.Props.C01', 'TlsModel.Props.C01Weight']
-HEAP_A, HEAP_B = 640, 8192          # peak heap <= A*len + B  (A ~ 2 x size_of the largest element type per consumed byte, nom's doubling)
+HEAP_A, HEAP_B = 640, 131072          # peak heap <= A*len + B  (A ~ 2 x size_of the largest element type per consumed byte, nom's doubling)
 
 PLAIN_OPS = ['tls_header', 'tls_raw', 'tls_encrypted', 'tls_plaintext', 'tls_parser', 'tls_many', 'msg_ccs', 'msg_alert', 'msg_appdata',
              'msg_handshake', 'hs_hello_request', 'hs_client_hello', 'hs_msg_client_hello', 'hs_server_hello', 'hs_msg_server_hello',
@@ -137,6 +137,15 @@ def run(ctx):
     hl += ['rp ' + ' '.join(c07.random_history(rng)) for _ in range(6000 if ctx.thorough else 1000)]
     hl += ['rp ' + ' '.join(c07.overfull_first_fragment(rng, x).steps) for x in (0, 1)] + ['rp ' + ' '.join(c07.oversize_history(rng, jump=True).steps)]
     hl += ['rp ' + ' '.join(c07.big_message_history(rng).steps) for _ in range(8 if ctx.thorough else 3)]
+    # a handshake header split across records (first fragments of 0..3 bytes) announcing the largest lengths: nothing may be
+    # reserved on the strength of a declared length
+    for cut in ((1, 3), (0, 4), (2, 2), (3, 1), (1, 1, 2), (0, 1, 0, 3)):
+        for L in ('ffffff', 'a00000', '7fffff'):
+            hdr = bytes.fromhex('0b' + L)
+            parts, pos = [], 0
+            for c in cut:
+                parts.append(hdr[pos:pos + c]); pos += c
+            hl.append('rp ' + ' '.join(c07.step('p', 22, 0x0303, x) for x in parts) + ' ' + c07.step('p', 22, 0x0303, b'\x00\x01\x02'))
     hl += ['rp p:22:771:0:- p:22:771:4:0e000000', 'rp p:24:771:0:- p:24:771:3:010000', 'rp p:22:771:0:- p:22:771:0:- n:22:771:0:- r p:22:771:0:-']
     lines += hl
     lines += common.cg_lines(ctx, None)
@@ -160,7 +169,9 @@ def run(ctx):
             bad = 'Debug/Display formatting of the returned value panicked'
         elif 'heap' in side:
             heap = int(side['heap'])
-            bound = HEAP_A * nbytes + HEAP_B + (10 * 1024 * 1024 + nbytes if op == 'rp' else 0)
+            # histories: the defragmenter's buffer only ever holds bytes that were fed to it, so the same linear bound in the total
+            # number of bytes of the history applies (the documented 10 MiB is a cap on top of it, not an allowance)
+            bound = HEAP_A * nbytes + HEAP_B
             if nbytes:
                 maxratio = max(maxratio, heap / max(1, nbytes)) if heap > HEAP_B else maxratio
             if heap > bound:
@@ -178,7 +189,7 @@ def run(ctx):
     ctx.sample({'line': hl[0][:200], 'impl': impl[len(lines) - len(hl)][:300]})
     common.lean_failure_violation(ctx, ok)
     return ctx.finish(LEVEL,
-        rule='every public parse op on: empty input, 1-2 byte strings, random bytes with planted extreme length fields, tiny inputs declaring huge lengths/counts, cap-sized records of minimal-size elements, host / protocol names made of multi-byte UTF-8 characters at every alignment and of malformed UTF-8, all independent-encoder families and their corruptions; defragmenter oracle and random histories (incl. empty first fragments); each call under catch_unwind with overflow-checks and debug-assertions on, counting allocator, Debug/Display of every returned value; verdicts: panic / crash / fmt panic / peak heap above %d*len+%d (+10 MiB for the defragmenter); distinct = (op, outcome shape)' % (HEAP_A, HEAP_B),
+        rule='every public parse op on: empty input, 1-2 byte strings, random bytes with planted extreme length fields, tiny inputs declaring huge lengths/counts, cap-sized records of minimal-size elements, host / protocol names made of multi-byte UTF-8 characters at every alignment and of malformed UTF-8, all independent-encoder families and their corruptions; defragmenter oracle and random histories (incl. empty first fragments); each call under catch_unwind with overflow-checks and debug-assertions on, counting allocator, Debug/Display of every returned value; verdicts: panic / crash / fmt panic / peak heap above %d*len+%d (histories: linear in the bytes fed so far); distinct = (op, outcome shape)' % (HEAP_A, HEAP_B),
         checker_cmd='cd /verif/lean && lake build TlsModel.Props.C01',
         assumptions=['PARTIAL: absence of panics and termination are theorems about the model (81 entry points + all defragmenter histories); heap bytes, formatting and wall-clock are measured on the implementation, not proved',
                      'a hang would surface as a check timeout (no per-case watchdog)'])
